@@ -7,6 +7,8 @@ from props.common import quiet_ccp
 
 ID = "C04"
 LEAN_MODULES = ["Ccp.Props.C04", "Ccp.Props.RxC04"]
+# bound of the escalated quick run (source fingerprint changed -> thorough generator): keeps that run near two minutes
+ESCALATE_MAX_CASES = 120000
 RULE = ("configs: random trees (depth <= 4, fan-out <= 4, at most ~40 lines, indentation step 1/2/4) over a small per-config text pool so that "
         "duplicate texts occur under one and under several parents, texts that are prefixes of others (Eth1/Eth10, a/ab/abc, vlan 10/100), "
         "whitespace variants (two blanks, tab), texts containing ^ $ | ( . * + [ \\, comment lines, blank lines, banner blocks with '' body "
